@@ -339,7 +339,7 @@ theorem deliv_of_stepRes {fn : Nat} {v : Option Val} {t0 : List Act} (c d : Cfg)
   · exact .ready (a.trans (hnext s hs)) hns (htr.trans ht)
 
 theorem tickStepper_deliv {fn : Nat} {v : Option Val} {t0 : List Act} (P : Prog) (c : Cfg) (hC : Coh c)
-    (hf : tickFuelOk P c = true) (h : Deliv fn v t0 c) : Deliv fn v t0 (tickStepper P c) := by
+    (h : Deliv fn v t0 c) : Deliv fn v t0 (tickStepper P c) := by
   have hpcok := hC.pcOk
   unfold PcOk at hpcok
   cases h with
@@ -408,8 +408,6 @@ theorem tickStepper_deliv {fn : Nat} {v : Option Val} {t0 : List Act} (P : Prog)
         · rw [hwfo] at g; cases g; rfl
       subst hwf'
       have hwfn : wakeFn c = fn := by unfold wakeFn; rw [hst]
-      unfold tickFuelOk at hf
-      simp only [hpc] at hf
       -- in both cases the tick is `loopHead P fuel0 (wake c fn wf w)` with `w` not pending
       have key : ∀ w, c.wfs[wf']? = some w → w ≠ .pending → Deliv fn v t0 (wake c fn wf' w) →
           Deliv fn v t0 (tickStepper P c) := by
@@ -444,9 +442,9 @@ theorem tickStepper_deliv {fn : Nat} {v : Option Val} {t0 : List Act} (P : Prog)
 
 /-- every event keeps `Deliv` -/
 theorem step_deliv {fn : Nat} {v : Option Val} {t0 : List Act} (P : Prog) (c : Cfg) (ev : Ev) (hC : Coh c)
-    (hf : ev = .tick → tickFuelOk P c = true) (h : Deliv fn v t0 c) : Deliv fn v t0 (step P c ev).1 := by
+    (h : Deliv fn v t0 c) : Deliv fn v t0 (step P c ev).1 := by
   cases ev <;> simp only [step]
-  · exact tickStepper_deliv P c hC (hf rfl) h
+  · exact tickStepper_deliv P c hC h
   · exact tickCb_deliv c _ h
   · exact h.quiet (pause_quiet c)
   · exact h.quiet (play_quiet c)
@@ -469,6 +467,6 @@ theorem run_deliv {fn : Nat} {v : Option Val} {t0 : List Act} (P : Prog) (c0 : C
     unfold histFuelOk at hf
     rw [Bool.and_eq_true] at hf
     have hfe : e = .tick → tickFuelOk P c0 = true := by intro he; subst he; exact hf.1
-    exact ih _ (step_coh P c0 e hC hfe) hf.2 (step_deliv P c0 e hC hfe h)
+    exact ih _ (step_coh P c0 e hC hfe) hf.2 (step_deliv P c0 e hC h)
 
 end PMF.H6
